@@ -73,7 +73,7 @@ macro_rules! poll_impl {
     ($modp:ident, $b:expr, $sched:expr, $term:expr, $ef:ident) => {{
         use mqtt_proto::$modp::{PollPacket, PollPacketState};
         let mut state = PollPacketState::default();
-        let npend_sched = $sched.iter().filter(|s| !matches!(s, Sched::Chunk(_))).count();
+        let npend_sched = $sched.iter().filter(|s| !matches!(s, Sched::Chunk(_) | Sched::InitChunk(_))).count();
         let mut rd = ScriptReader::new($b.to_vec(), $sched, $term);
         let waker = std::task::Waker::noop();
         let mut cx = std::task::Context::from_waker(waker);
